@@ -365,20 +365,20 @@ func runProperty(ld *Loader, verif, prop, tier, dir string, timeout, workers int
 		"seed":        seed,
 		"level":       "proof",
 		"coverage": map[string]interface{}{
-			"obligations":          total,
-			"discharged":           discharged,
-			"checker_cmd":          fmt.Sprintf("/verif/bin/govc -property %s -tier %s (z3-new, cvc5, z3 raced per obligation, timeout %ds)", prop, tier, timeout),
-			"trusted_base":         trusted,
-			"functions":            fns,
+			"obligations":              total,
+			"discharged":               discharged,
+			"checker_cmd":              fmt.Sprintf("/verif/bin/govc -property %s -tier %s (z3-new, cvc5, z3 raced per obligation, timeout %ds)", prop, tier, timeout),
+			"trusted_base":             trusted,
+			"functions":                fns,
 			"functions_under_contract": len(fns),
-			"discharged_by_backend": solverCounts,
-			"solver_seconds":       solverTime,
-			"vacuity":              map[string]int{"cover_checks": covers, "cover_ok": coversOK},
-			"known_findings":       kf,
-			"undecided_clauses":    def.Undecided,
-			"contract_sources":     srcs,
-			"samples":              samples,
-			"explanation":          "every obligation is generated from /repo's current source by symbolic execution of the real function bodies against their contracts and discharged by an SMT solver; one obligation per postcondition conjunct, frame, precondition of a callee, loop invariant, bounds/nil/div/shift/panic site",
+			"discharged_by_backend":    solverCounts,
+			"solver_seconds":           solverTime,
+			"vacuity":                  map[string]int{"cover_checks": covers, "cover_ok": coversOK},
+			"known_findings":           kf,
+			"undecided_clauses":        def.Undecided,
+			"contract_sources":         srcs,
+			"samples":                  samples,
+			"explanation":              "every obligation is generated from /repo's current source by symbolic execution of the real function bodies against their contracts and discharged by an SMT solver; one obligation per postcondition conjunct, frame, precondition of a callee, loop invariant, bounds/nil/div/shift/panic site",
 		},
 		"assumptions": trusted,
 		"wall_s":      time.Since(start).Seconds(),
